@@ -181,7 +181,7 @@ theorem decode_class (env : Env) (m v : BitVec 32) (name : String) (kinds : List
 /-! ### facts about every successful decode -/
 
 theorem decodeFrom_row (env : Env) (x : BitVec 32) : ∀ rows i r, decodeFrom env rows i x = some r →
-    ∃ row ∈ rows, row.op = r.op ∧ x &&& row.mask = row.value := by
+    ∃ row ∈ rows, row.op = r.op ∧ x &&& row.mask = row.value ∧ decodeArgs env r.row row.args x = some r.args := by
   intro rows
   induction rows with
   | nil => intro i r h; simp [decodeFrom] at h
@@ -195,9 +195,31 @@ theorem decodeFrom_row (env : Env) (x : BitVec 32) : ∀ rows i r, decodeFrom en
       · obtain ⟨row, hm, h1⟩ := ih _ _ h; exact ⟨row, List.mem_cons_of_mem _ hm, h1⟩
       · split at h
         · obtain ⟨row, hm, h1⟩ := ih _ _ h; exact ⟨row, List.mem_cons_of_mem _ hm, h1⟩
-        · simp only [Option.some.injEq] at h
+        · rename_i as has
+          simp only [Option.some.injEq] at h
           subst h
-          exact ⟨r0, List.mem_cons_self, rfl, by simpa using hmatch⟩
+          exact ⟨r0, List.mem_cons_self, rfl, by simpa using hmatch, has⟩
+
+/-- a class no table row intersects is undecodable, whatever the oracle -/
+theorem decodeFrom_noHit (env : Env) (m v x : BitVec 32) (hx : x &&& m = v) :
+    ∀ rows i, firstHit m v rows i = none → decodeFrom env rows i x = none := by
+  intro rows
+  induction rows with
+  | nil => intro i _; rfl
+  | cons r0 rs ih =>
+    intro i h
+    unfold firstHit at h
+    by_cases ho : overlaps m v r0 = true
+    · simp [ho] at h
+    · simp only [ho] at h
+      have hne : x &&& r0.mask ≠ r0.value := by
+        intro hmm
+        apply ho
+        have := overlap_of_match x m v r0.mask r0.value hx hmm
+        simp [overlaps, this]
+      unfold decodeFrom
+      simp only [bne_iff_ne, ne_eq, hne, not_false_eq_true, if_true]
+      exact ih (i + 1) (by simpa using h)
 
 /-- env-independent decoding is sound for every oracle -/
 theorem decodeDefFrom_sound (env : Env) (x : BitVec 32) : ∀ rows i r, decodeDefFrom rows i x = some r → decodeFrom env rows i x = r := by
@@ -329,11 +351,14 @@ theorem callHit_some (start : BitVec 64) (c : Nat) (r : Res) (a : BitVec 64) (h 
     · simp at h
   · simp at h
 
-/-- whenever GetInnerFunc returns an address, it is the one computed from a B/BL found at a word-aligned offset ≤ 4096 -/
+/-- whenever GetInnerFunc returns an address, it is the one computed from a B/BL found at a word-aligned offset c' ≤ 4096, and it is
+    the FIRST such: every aligned offset before c' holds a decodable word that is not a qualifying call and is not followed by the prologue -/
 theorem inner_target (env : Env) (mem : Nat → BitVec 32) (start : BitVec 64) :
     ∀ fuel c z a, c ≤ 4096 → getInnerFunc env mem start fuel c z = .target a →
       ∃ c' r d, c ≤ c' ∧ (c' - c) % 4 = 0 ∧ c' ≤ 4096 ∧ decode env (mem c') = some r ∧ isCall r.op = true ∧
-        r.args.head? = some (.pcrel d) ∧ innerTarget start c' d = some a := by
+        r.args.head? = some (.pcrel d) ∧ innerTarget start c' d = some a ∧
+        (∀ k, c ≤ k → k < c' → (k - c) % 4 = 0 →
+          ∃ rk, decode env (mem k) = some rk ∧ callHit start k rk = none ∧ prologueAt mem (k + 4) = false) := by
   intro fuel
   induction fuel with
   | zero => intro c z a _ h; simp [getInnerFunc] at h
@@ -351,14 +376,21 @@ theorem inner_target (env : Env) (mem : Nat → BitVec 32) (start : BitVec 64) :
           simp only [Inner.target.injEq] at h
           subst h
           obtain ⟨d, h1, h2, h3⟩ := callHit_some start c r a' ha
-          exact ⟨c, r, d, Nat.le_refl _, by simp, hc, hr, h1, h2, h3⟩
-        · split at h
+          exact ⟨c, r, d, Nat.le_refl _, by simp, hc, hr, h1, h2, h3, by intro k h1 h2; omega⟩
+        · rename_i hnone
+          split at h
           · simp at h
-          · split at h
+          · rename_i hpro
+            split at h
             · simp at h
             · rename_i hle
-              obtain ⟨c', r', d, h1, h2, h3, h4⟩ := ih (c + 4) _ a (by omega) h
-              exact ⟨c', r', d, by omega, by omega, h3, h4⟩
+              obtain ⟨c', r', d, h1, h2, h3, h4, h5, h6, h7, h8⟩ := ih (c + 4) _ a (by omega) h
+              refine ⟨c', r', d, by omega, by omega, h3, h4, h5, h6, h7, ?_⟩
+              intro k hk1 hk2 hk3
+              by_cases hkc : k = c
+              · subst hkc
+                exact ⟨r, hr, hnone, by simpa using hpro⟩
+              · exact h8 k (by omega) hk2 (by omega)
 
 /-- with fuel for 1026 iterations the model never runs dry (the Go loop is bounded by `curLen > 4096`) -/
 theorem inner_fuel (env : Env) (mem : Nat → BitVec 32) (start : BitVec 64) :
@@ -388,7 +420,8 @@ theorem funcSize_extent (env : Env) (mem : Nat → BitVec 32) (minimal : Bool)
     (hop : ∀ w r, decode env w = some r → r.op ≠ 0) :
     ∀ fuel c n, getFuncSize env mem minimal fuel c false = some n →
       c ≤ n ∧ (n - c) % 4 = 0 ∧ (∀ k, c ≤ k → k < n → (k - c) % 4 = 0 → (decode env (mem k)).isSome = true) ∧
-      (decode env (mem n) = none ∨ (c < n ∧ prologueAt mem n = true)) := by
+      (decode env (mem n) = none ∨ (c < n ∧ prologueAt mem n = true)) ∧
+      (∀ k, c < k → k < n → (k - c) % 4 = 0 → prologueAt mem k = false) := by
   intro fuel
   induction fuel with
   | zero => intro c n h; simp [getFuncSize] at h
@@ -399,7 +432,7 @@ theorem funcSize_extent (env : Env) (mem : Nat → BitVec 32) (minimal : Bool)
     · rename_i hd
       simp only [Option.some.injEq] at h
       subst h
-      exact ⟨Nat.le_refl _, by simp, by intro k h1 h2; omega, Or.inl hd⟩
+      exact ⟨Nat.le_refl _, by simp, by intro k h1 h2; omega, Or.inl hd, by intro k h1 h2; omega⟩
     · rename_i r hr
       have hz : isInt0 r (mem c) = false := by
         have := hop _ _ hr
@@ -409,13 +442,14 @@ theorem funcSize_extent (env : Env) (mem : Nat → BitVec 32) (minimal : Bool)
       · rename_i hp
         simp only [Option.some.injEq] at h
         subst h
-        refine ⟨by omega, by omega, ?_, Or.inr ⟨by omega, hp⟩⟩
+        refine ⟨by omega, by omega, ?_, Or.inr ⟨by omega, hp⟩, by intro k h1 h2 h3; omega⟩
         intro k h1 h2 h3
         have : k = c := by omega
         subst this
         simp [hr]
-      · obtain ⟨h1, h2, h3, h4⟩ := ih (c + 4) n h
-        refine ⟨by omega, by omega, ?_, ?_⟩
+      · rename_i hp
+        obtain ⟨h1, h2, h3, h4, h5⟩ := ih (c + 4) n h
+        refine ⟨by omega, by omega, ?_, ?_, ?_⟩
         · intro k hk1 hk2 hk3
           by_cases hkc : k = c
           · subst hkc; simp [hr]
@@ -423,6 +457,10 @@ theorem funcSize_extent (env : Env) (mem : Nat → BitVec 32) (minimal : Bool)
         · cases h4 with
           | inl h => exact Or.inl h
           | inr h => exact Or.inr ⟨by omega, h.2⟩
+        · intro k hk1 hk2 hk3
+          by_cases hkc : k = c + 4
+          · subst hkc; simpa using hp
+          · exact h5 k (by omega) hk2 (by omega)
 
 /-- register-size bit `sf` / `b5` = bit 31 -/
 def bit31 (x : BitVec 32) : Bool := ((x >>> 31) &&& 1#32) != 0#32
